@@ -33,6 +33,9 @@
                                    -> `acc=<v1,v2,…> ev=<events>`: the accumulated values in the
                                    order salsa returns them (`-` if none) and the events emitted by
                                    the op (the initial fetch and every `refresh_memo` of the search)
+    accs <q>                       (debug) the same request answered by the explicit-stack loop
+                                   `accumulatedByStack` with fuel 1000000: same output format, or
+                                   `out-of-fuel`
     dump                           (debug) `cur=.. lc=.. inputs=.. memos=..` — free format
   anything else (unknown op, wrong arity, index out of range, op before `prog`): `bad-op`.
 
@@ -185,6 +188,14 @@ def handle (d : DState) (line : String) : Option (DState × String) :=
     let s0 := { d.st with trace := [] }
     let r := accumulatedBy (progOf d.exprs) s0 q
     some ({ d with started := true, st := r.1 }, s!"acc={fmtNats r.2} ev={fmtEvs r.1.trace}")
+  | ["accs", q] => do
+    if !d.active then none
+    let q ← nat? q
+    if q ≥ d.exprs.length then none
+    let s0 := { d.st with trace := [] }
+    match accumulatedByStack (progOf d.exprs) 1000000 s0 q with
+    | some r => some ({ d with started := true, st := r.1 }, s!"acc={fmtNats r.2} ev={fmtEvs r.1.trace}")
+    | none => some (d, "out-of-fuel")
   | ["dump"] => if d.active then some (d, dump d) else none
   | _ => none
 
